@@ -145,6 +145,36 @@ def parse_run(path, dgram):
         return ("exc", got, e)
 
 
+def earlier_datagram(path, family, model, variant):
+    from spec.ops_concrete import O as OC
+
+    n = SB.FAMILY_LEN[family]
+    b = bytearray(n)
+    b[0:2] = b"\xfe\xf0"
+    b[74:76] = model.to_bytes(2, "big")
+    b[42:49] = b"Earlier"
+    on = 1 if variant == "on" else 0
+    if family == "type1":
+        b[133] = on
+        b[135:137] = (1234).to_bytes(2, "little")
+        b[147:151] = (601).to_bytes(4, "little")
+        b[155:159] = (7261).to_bytes(4, "little")
+    elif family == "breeze":
+        b[135:137] = (235).to_bytes(2, "little")
+        b[137], b[138], b[139], b[140] = on, 4, 24, 0x11
+        b[143:151] = b"ELEC7022"
+    else:
+        b[135], b[137:139] = 50, (b"\x01\x00" if on else b"\x00\x00")
+    if not SB.wellformed(OC, bytes(b), family, SB.decode(OC, bytes(b), family)):
+        raise E.HarnessError("the fixed earlier datagram is not well-formed")
+    units = list(b)
+    free = list(range(18, 21)) + [40] + list(range(76, 86)) + ([86] if family != "type1" else [])
+    fresh = A.fresh_bytes(path, "dg0_", len(free))
+    for u, i in zip(fresh.items, free):
+        units[i] = u
+    return SymSeq("bytes", units)
+
+
 def dgram_replay(m, dgram, oracle, family=None):
     return {"kind": "datagram", "data": C.ev_seq(m, dgram).hex(), "oracle": oracle, "family": family}
 
@@ -158,6 +188,14 @@ def run_c05(case, eng, res):
            "SHUTTER": "SwitcherShutter"}
 
     def body(path):
+        path.notes["before"] = None
+        if case.get("before"):
+            # an earlier broadcast of the same model in the same process, decoded and delivered before the one under test:
+            # identity bytes (device id, key, IP, MAC) are free - they may or may not coincide with the later one's - the rest
+            # is a fixed well-formed payload with another name and state (fully free earlier datagrams square the path count)
+            d0 = earlier_datagram(path, family, case["model"], case["before"])
+            parse_run(path, d0)
+            path.notes["before"] = d0
         d = sym_datagram(path, n)
         r = SB.decode(O, d, family)
         path.assume(bterm(SB.wellformed(O, d, family, r)))
@@ -166,6 +204,12 @@ def run_c05(case, eng, res):
         out = parse_run(path, d)
         return out + (d, r)
 
+    def rp(m, path, oracle):
+        spec = dgram_replay(m, path.current_d, oracle, family)
+        if path.notes.get("before") is not None:
+            spec["before"] = [C.ev_seq(m, path.notes["before"]).hex()]
+        return spec
+
     npaths = 0
     for path, out, exc in eng.explore(body):
         if exc is not None:
@@ -173,6 +217,7 @@ def run_c05(case, eng, res):
         npaths += 1
         path.twin("C05")
         tag, got, e, d, r = out
+        path.current_d = d
         checks = []
         if tag == "exc":
             checks.append(("wellformed_broadcast_decodes_without_error", True))
@@ -206,9 +251,9 @@ def run_c05(case, eng, res):
             m = path.refute(bterm(bad) if not isinstance(bad, bool) else z3.BoolVal(bad))
             if m is not None:
                 res["violations"].append({"what": "C05 %s (%s)" % (lbl, family), "case": case,
-                                          "replay": dgram_replay(m, d, "C05", family)})
+                                          "replay": rp(m, path, "C05")})
         mw = path.witness()
-        res["witnesses"].append({"replay": dgram_replay(mw, d, None, family),
+        res["witnesses"].append({"replay": rp(mw, path, None),
                                  "expected": {"devices": [C.conc(mw, g) for g in got], "exception": type(e).__name__ if e else None}})
         if len(res["samples"]) < 2:
             res["samples"].append({"case": case, "witness_datagram": C.ev_seq(mw, d).hex(),
@@ -223,6 +268,8 @@ def main_c05(tier):
     cases = []
     for code, (name, fam, cat) in SB.MODELS.items():
         cases.append({"family": fam, "model": code, "name": name})
+    hist = [c for c in cases if tier == "thorough" or c["name"] in ("V4", "POWER_PLUG", "BREEZE", "RUNNER")]
+    cases += [dict(c, before=v) for c in hist for v in ("on", "off")]
     results = H.run_cases("harness.bcast", "run_c05", cases, timeout_ms=120000 if tier == "quick" else 600000)
     nw = H.validate_call_witnesses(results, cmp=_cmp_devices)
     H.finish("C05", tier, "model_checking", results, t0,
@@ -260,6 +307,15 @@ def run_c06(case, eng, res):
             n = case["n"]
         magic = b_and(*[sym_eq(O.u(d, k), v) for k, v in ((0, 0xFE), (1, 0xF0))]) if (kind != "tiny" or case["n"] >= 2) else False
         gate = b_and(magic, b_or(i_eq(n, 165), i_eq(n, 168), i_eq(n, 159)))
+        if case.get("repeat"):
+            # the same foreign byte string arrives again and again: each arrival is ignored like the first (a counter, a
+            # budget or a "seen before" memo would show at its k-th arrival); the last arrival is the one checked below
+            path.assume(bterm(b_not(gate)))
+            for _k in range(case["repeat"] - 1):
+                t0_, g0_, e0_ = parse_run(path, d if not (kind == "tiny" and case["n"] == 0) else b"")
+                if t0_ != "ok" or g0_ or path.notes.get("warnings"):
+                    path.notes["early"] = _k + 1
+                    return (t0_, g0_, e0_, d, gate, n)
         try:
             out = parse_run(path, d if not (kind == "tiny" and case["n"] == 0) else b"")
         except E.Unsupported:
@@ -299,9 +355,13 @@ def run_c06(case, eng, res):
                 continue
             m = path.refute(bterm(bad) if not isinstance(bad, bool) else z3.BoolVal(bad))
             if m is not None:
-                res["violations"].append({"what": "C06 %s" % lbl, "case": case, "replay": dgram_replay(m, d, "C06") if not isinstance(d, bytes) else {"kind": "datagram", "data": "", "oracle": "C06"}})
+                res["violations"].append({"what": "C06 %s" % lbl + (" (arrival %d of the same datagram)" % path.notes.get("early", case["repeat"]) if case.get("repeat") else ""),
+                                          "case": case, "replay": dict(dgram_replay(m, d, "C06") if not isinstance(d, bytes) else {"kind": "datagram", "data": "", "oracle": "C06"},
+                                                                       **({"repeat": path.notes.get("early", case["repeat"])} if case.get("repeat") else {}))})
         mw = path.witness()
         rp = dgram_replay(mw, d, None) if not isinstance(d, bytes) else {"kind": "datagram", "data": ""}
+        if case.get("repeat"):
+            rp["repeat"] = path.notes.get("early", case["repeat"])
         res["witnesses"].append({"replay": rp, "expected": {"devices": [C.conc(mw, g) for g in got], "exception": type(e).__name__ if e else None,
                                                           "warnings": len(warns)}})
         if len(res["samples"]) < 2:
@@ -317,6 +377,9 @@ def main_c06(tier):
     cases += [{"kind": "full", "n": n} for n in (165, 168, 159)]
     extra_lens = [2, 3] + list(range(150, 180)) if tier == "quick" else list(range(2, 400))
     cases += [{"kind": "tiny", "n": n} for n in extra_lens if n not in (165, 168, 159)]
+    reps = 128 if tier == "quick" else 1024
+    cases += [dict(c, repeat=reps) for c in ({"kind": "blob"}, {"kind": "tiny", "n": 0}, {"kind": "tiny", "n": 1}, {"kind": "tiny", "n": 164},
+                                             {"kind": "full", "n": 165})]
     results = H.run_cases("harness.bcast", "run_c06", cases, timeout_ms=120000 if tier == "quick" else 600000)
     nw = H.validate_call_witnesses(results, cmp=lambda exp, o: _cmp_devices(exp, o) and o.get("warnings") == exp["warnings"])
     H.finish("C06", tier, "model_checking", results, t0,
